@@ -1,5 +1,5 @@
 # Wording of MANIFEST.json per property.
-HOOK_COMMITS = []
+HOOK_COMMITS = ['7bf3a7c']
 NOT_YET = {}
 TEXT = {
  'C19': dict(
